@@ -77,7 +77,8 @@ def cases(rng, tier):
 							if tier == 'quick' and rng.random() > 0.35:
 								continue
 							# mode: how the stream is cut (0-5), plus 10 / 20 when another message precedes this one on the same state machine
-							yield ('m', side, version, cl, te, body, th, tr, rng.choice((0, 1, 2, 3, 4, 5)) + rng.choice((0, 0, 10, 20)))
+							# + 100 / 200 / 300: a Connection field that nominates a framing field as hop-by-hop (a proxy-style parser must not let that decide the framing)
+							yield ('m', side, version, cl, te, body, th, tr, rng.choice((0, 1, 2, 3, 4, 5)) + rng.choice((0, 0, 10, 20)) + rng.choice((0, 0, 0, 100, 200, 300)))
 
 
 def search(rng, res):
@@ -90,6 +91,11 @@ def stream(case):
 	payload = chunked if te is not None and b'chunked' in te.lower() else plain
 	if mode % 10 == 2 and te is None:
 		payload = chunked      # a chunked-looking body sent without announcing it
+	conn = {0: None, 1: b'Transfer-Encoding', 2: b'Content-Length, close', 3: b'Trailer, keep-alive'}[mode // 100]
+	if conn is not None:
+		line, sep, rest = head.partition(b'\r\n')
+		head = line + sep + b'Connection: ' + conn + b'\r\n' + rest
+	mode = mode % 100
 	pre = b''
 	if mode // 10 == 1:
 		pre = (b'POST /first HTTP/1.1\r\nHost: h\r\nContent-Length: 3\r\n\r\nabc' if side == 'server' else b'HTTP/1.1 200 OK\r\nContent-Length: 3\r\n\r\nabc')
@@ -135,8 +141,24 @@ FORBIDDEN = (b'content-length', b'transfer-encoding', b'trailer')
 
 def oracle(case):
 	_, side, version, cl, te, body, th, tr, mode = case
+	mode = mode % 100
+	r = judge(case, parserutil.new_sm(side))
+	if r is None and side == 'server':
+		# the proxy state machine is a request parser as well
+		try:
+			from httoop.proxy import ProxyStateMachine
+		except ImportError:
+			return None
+		r = judge(case, ProxyStateMachine('http', 'localhost', 80))
+		if r is not None:
+			r['what'] = 'ProxyStateMachine: ' + r['what']
+	return r
+
+
+def judge(case, sm):
+	_, side, version, cl, te, body, th, tr, mode = case
+	mode = mode % 100
 	s, plain = stream(case)
-	sm = parserutil.new_sm(side)
 	delivered = []
 	err = None
 	try:
@@ -167,6 +189,9 @@ def oracle(case):
 				bad.append('still advertises Transfer-Encoding: %r' % tev)
 				if version == b'1.0':
 					fid = 'F6'
+		# chunked framing decides the body (also next to a Content-Length, whatever else the header section says about these fields)
+		if te is not None and te.strip().lower() == b'chunked' and version == b'1.1' and d is delivered[-1] and len(delivered) == 1 + (1 if mode // 10 else 0) and b != plain:
+			bad.append('the message was sent chunked (payload %r), delivered body %r' % (plain[:40], b[:40]))
 		# fields that can only have come from the trailer section
 		sent_header_names = {b'host', b'content-length', b'transfer-encoding', b'trailer'}
 		for n, v in tr:
